@@ -174,6 +174,36 @@ CLAIMED = {
          "What a scanner callback writes is abstracted as the region ScanRegion[name] (A-CALLBACK: a scan of component X stays inside X's "
          "definition and the synchronised registry); the built-in tag scanner is not yet proved against that region. sync.Map and "
          "sync.WaitGroup / sync.Mutex semantics are trusted (A-WG, A-MUTEX, A-SYNCMAP). syslog's concurrent use is not modelled. " + TRUST),
+ "C16": ("proof",
+         "Placeholder resolution is verified function by function: el.ReplaceAllContent terminates (loop variant maxReplaceRounds - round, "
+         "obligation [loop1:variant-decreases]; before the repair of F-C16 the obligation [loop1:terminates] failed - a: \"${a}\" spun "
+         "forever), returns a text without placeholder on success ([no-placeholder-left]) or an error with empty text, leaves text without "
+         "placeholder untouched, and never slices out of range (content(): marker lengths fit every match). It refines the interface-level "
+         "Helper contract (model fields Pattern / OK bound to the implementation). The placeholder callback of the config-quote "
+         "processor is verified against the statement: key = text before the first ':', a configured value counts as present unless "
+         "nil / empty map / empty list ([configured-value-wins]), otherwise the default is parsed and rendered ([default-otherwise]), "
+         "absent without default gives the empty text and no error ([absent-without-default-is-empty]), the lookup is recorded; the "
+         "processor leaves TagVal without placeholder for every property whose tag had one and touches no other TagVal.",
+         "DESIGN.md section 5 C16",
+         "contract-based deductive verification (govc WP over go/ssa, z3/cvc5)",
+         "regexp (leftmost match RFirst, minimal match length of the two compiled patterns), strings.Replace / SplitN and "
+         "strconv2.ParseAny / FormatAny are library functions used through trusted contracts (A-LIB, A-STR). That the iterated replacement "
+         "equals 'the tag written with the replacement text' is stated per round by the library contract of strings.Replace, not as a closed "
+         "form. The callback handed to ReplaceAllContent is assumed to stay inside its parameter contract (frame only). " + TRUST),
+ "C18": ("proof",
+         "Stage order from the real declarations: every built-in processor's Order() is verified to return its constant and the marker "
+         "interfaces are read from go/types; three lemmas are then proved - placeholder substitution < expression evaluation < binding "
+         "(value / prefix) inside the priority class, validation in the plain ordered class - which together with the C12 contract of "
+         "SortOrderedComponents (classes in order, order non-decreasing) gives the stage order. The expression processor evaluates the "
+         "text produced by the placeholder stage (site assertion [evaluates-substituted-text]: the input of the resolution is TagVal), "
+         "replaces each #{...} by the rendered library result ([expression-result]) and leaves no expression behind; the validation "
+         "processor returns an error exactly when the library reports a violation for a checked property "
+         "([fails-exactly-on-violation], a biconditional with loop invariant).",
+         "DESIGN.md section 5 C18",
+         "contract-based deductive verification (govc WP over go/ssa, z3/cvc5)",
+         "expr.Compile / expr.Run and validator.Struct / Var are third-party: their verdicts are named by spec functions (A-LIB), the "
+         "constraint and expression semantics themselves are not verified. That the delegate's processor list IS the sorted list "
+         "(InvokeBeanFactoryPostProcessors) is used through the phase contract, not yet proved against the body. " + TRUST),
  "C06": ("proof",
          "Candidate collection is verified per processor for an arbitrary property list and definition registry: for a nameless wire point of "
          "pointer type exactly the definitions whose value has that type are appended, for an interface type exactly the implementers "
